@@ -52,7 +52,7 @@ def _one(ctx, i, rep=None):
     cfg = dict(skipws=r.random() < 0.9, auto_init_attributes=True, use_regexp_group=False, ignore_case=True,
                autokwd=r.random() < 0.5)
     try:
-        mm = metamodel_from_str(text, **cfg)
+        mm = P.make_mm(text, **cfg)
     except TextXError as e:
         ctx.violation(None, 'generated grammar rejected: %s' % str(e)[:100], {'grammar': text}, rep)
         return
